@@ -82,6 +82,7 @@ class Scenario(worlds.World):
         self.delivered = 0
         self.raise_on = False
         self.nsend = 0
+        self.pos = 0
         self.used_bad = set()
         self.max_send = params.get("max_send", 2)
         self.bad_kinds = params.get("bad_kinds", ["struct", "value", "unregistered", "attr"])
@@ -114,6 +115,23 @@ class Scenario(worlds.World):
     def enabled(self):
         acts = []
         ready = self.loop.has_ready()
+        script = self.p.get("script")
+        if script is not None:
+            # backbone mode: the environment events come in a fixed order; what is explored is where each of them
+            # lands relative to the client's reaction (any turn boundary = one deviation)
+            if ready:
+                acts.append(("run",))
+            if self.pos < len(script):
+                nxt = tuple(script[self.pos])
+                ok = {"accept": bool(self.net.pending), "refuse": bool(self.net.pending), "accept_failing": bool(self.net.pending),
+                      "eof": bool(self.net.live()), "reset": bool(self.net.live()), "failw": bool(self.net.live()),
+                      "stall": bool(self.net.live()), "resume": bool(self.net.stalled()), "frame": bool(self.net.live()),
+                      "tick": not ready and self.loop.next_deadline() is not None}.get(nxt[0], True)
+                if ok:
+                    acts.append(nxt)
+                elif not ready and self.loop.next_deadline() is not None and nxt[0] != "tick":
+                    acts.append(("tick",))
+            return acts
         if ready:
             acts.append(("run",))
         elif self.loop.next_deadline() is not None:
@@ -137,6 +155,8 @@ class Scenario(worlds.World):
     def do(self, a):
         L = self.loop
         op = a[0]
+        if self.p.get("script") is not None and op != "run" and self.pos < len(self.p["script"]) and tuple(self.p["script"][self.pos]) == tuple(a):
+            self.pos += 1
         if op == "run":
             L.turn()
         elif op == "tick":
@@ -166,6 +186,16 @@ class Scenario(worlds.World):
             self.net.live()[-1].peer_send(self.probe)
         elif op == "failw":
             self.net.live()[-1].fail_after = 0
+        elif op == "accept_failing":
+            def arm(t):
+                t.fail_after = 0
+                self.net.on_open = None
+            self.net.on_open = arm
+            self.net.resolve(True)
+        elif op == "stall":
+            self.net.live()[-1].pause()
+        elif op == "resume":
+            self.net.stalled()[-1].resume()
         elif op == "send":
             self.nsend += 1
             self.spawn(self._send(self.ok(self.nsend), f"ok{self.nsend}"))
@@ -212,7 +242,7 @@ class Scenario(worlds.World):
         return None
 
     def fp_extra(self):
-        return (worlds.net_state(self.net), self.nsend, tuple(sorted(self.used_bad)), self.raise_on)
+        return (worlds.net_state(self.net), self.nsend, tuple(sorted(self.used_bad)), self.raise_on, self.pos)
 
     def outcome(self):
         return repr((len(self.net.conns), self.delivered, self.sock.is_connected,
@@ -299,6 +329,12 @@ class Scenario(worlds.World):
         return bytes([0x20, 0, 0, 0, 0, 4, 0, 1, 9, 0x03, 0xFF, 0x00])
 
 
+SCRIPTS = {
+    "stalled-stream-given-up": [["accept"], ["stall"], ["send"], ["eof"], ["tick"], ["accept"], ["resume"]],
+    "stalled-stream-reset": [["accept"], ["stall"], ["send"], ["send"], ["reset"], ["accept"]],
+    "lingering-close-meets-stale-retry/quiet": [["send"], ["accept_failing"], ["accept"], ["stall"], ["send"], ["eof"], ["tick"], ["accept"], ["resume"]],
+    "lingering-close-meets-stale-retry": [["send"], ["accept_failing"], ["accept"], ["stall"], ["send"], ["eof"], ["tick"], ["accept"], ["resume"]],
+}
 QUICK = [(5, 0), (4, 1), (3, 2)]
 THOROUGH = [(8, 0), (6, 1), (5, 2)]
 
@@ -324,6 +360,12 @@ def run(tier, seed, part=None):
         params = {"gen": gen, "quiet_subscriber": True, "raising": False}
         res = explorer.explore(SPEC, params, depth, dev, time_cap=cap, seed=seed, label=f"at{gen}/quiet/d{depth}/v{dev}")
         chk.add_explorer(f"at{gen}/quiet-subscriber", SPEC, params, res, {"depth": depth, "deviations": dev, "quiet_subscriber": True})
+        # backbone scripts around back-pressure: a stream that stalls, is given up by the client and lingers in
+        # close() on its unsent bytes while the rest of the client moves on
+        for name, script in SCRIPTS.items():
+            params = {"gen": gen, "script": script, "quiet_subscriber": name.endswith("/quiet"), "max_send": 9}
+            res = explorer.explore(SPEC, params, len(script), 1 if tier == "quick" else 2, time_cap=cap, seed=seed, label=f"at{gen}/script/{name}")
+            chk.add_explorer(f"at{gen}/script/{name}", SPEC, params, res, {"script": script, "deviations": 1 if tier == "quick" else 2})
     chk.add_audit(SPEC, {"gen": 4}, 3, 1, limit=6000 if tier == "thorough" else 600)
     chk.add_audit(SPEC, {"gen": 5}, 3, 1, limit=6000 if tier == "thorough" else 600)
     return chk.finish()
